@@ -513,7 +513,27 @@ impl<'a> Run<'a> {
         if let Some(dir) = path.parent() {
             fatal::create_dir_all(dir)?;
         }
-        fatal::write_file(&path, content)
+
+        // Write to a temporary file first and then move that into place so
+        // that we never leave a truncated certificate behind if we get
+        // interrupted.
+        let mut tmp_file = self.store.tmp_file()?;
+        if let Err(err) = tmp_file.write_all(content) {
+            error!(
+                "Fatal: failed to write to file {}: {}",
+                tmp_file.path().display(), err
+            );
+            return Err(Failed)
+        }
+        if let Err(err) = tmp_file.persist(&path) {
+            error!(
+                "Failed to persist temporary file {} to {}: {}",
+                err.file.path().display(), path.display(),
+                err.error,
+            );
+            return Err(Failed)
+        }
+        Ok(())
     }
 
     /// Accesses the repository for the provided RPKI CA.
